@@ -269,6 +269,16 @@ func cmdSelftest(args []string) int {
 		}
 	}
 
+	// 5d. R-FLAGLOOP
+	if fns, err := ssaSnippet(selftestFlagLoop); err != nil {
+		check("ssa snippet flagloop", false, "%v", err)
+	} else {
+		for name, want := range map[string]int{"lastWins": 1, "nestedLastWins": 1, "anyOf": 0, "accumulated": 0, "consulted": 0} {
+			got := len(flagOverwrittenInLoop(fns[name]))
+			check("flagOverwrittenInLoop/"+name, got == want, "%d loop-overwritten flags (want %d)", got, want)
+		}
+	}
+
 	// 6. every rule table entry that names a function has the documented key shape
 	var badKeys []string
 	for k := range c14NameFilterAllowed {
@@ -419,5 +429,59 @@ func localOnce(f func() error) error {
 	var err error
 	once.Do(func() { err = f() })
 	return err
+}
+`
+
+const selftestFlagLoop = `package snippet
+
+func test(s string) bool { return len(s) > 0 }
+
+func lastWins(xs []string) bool {
+	ok := false
+	for _, x := range xs {
+		ok = test(x)
+	}
+	return ok
+}
+
+func nestedLastWins(xs, ys []string) bool {
+	valid := false
+	for _, x := range xs {
+		if x == "" {
+			continue
+		}
+		for _, y := range ys {
+			valid = !test(x + y)
+		}
+	}
+	return valid
+}
+
+func anyOf(xs []string) bool {
+	for _, x := range xs {
+		if test(x) {
+			return true
+		}
+	}
+	return false
+}
+
+func accumulated(xs []string) bool {
+	ok := false
+	for _, x := range xs {
+		ok = ok || test(x)
+	}
+	return ok
+}
+
+func consulted(xs []string) bool {
+	ok := false
+	for _, x := range xs {
+		ok = test(x)
+		if ok {
+			break
+		}
+	}
+	return ok
 }
 `
